@@ -1,6 +1,6 @@
 (** C06 over exact rationals: characterisation of the comb, floor/ceil copy counts. *)
 From Coq Require Import List Bool Arith Lia ZArith QArith Qround Lqa.
-From Tempest Require Import Base.Ops Model.Resample Proofs.Resample.
+From Tempest Require Import Base.Ops Base.QFloor Model.Resample Proofs.Resample.
 Import ListNotations.
 Local Open Scope Q_scope.
 
@@ -132,26 +132,6 @@ Proof.
   induction n as [|n IH]; intros s H; [reflexivity|].
   rewrite count_lt_S. rewrite iQ_S in H. rewrite IH by lra.
   assert (E : Qltb (iQ n) s = true) by (apply Qltb_lt; lra). rewrite E. lia.
-Qed.
-
-Lemma Zle_from_Qlt a b : inject_Z a < inject_Z b + 1 -> (a <= b)%Z.
-Proof.
-  intro H. assert (H' : inject_Z a < inject_Z (b + 1)) by (rewrite inject_Z_plus; exact H).
-  rewrite <- Zlt_Qlt in H'. lia.
-Qed.
-
-Lemma Qceiling_unique s z : inject_Z z - 1 < s -> s <= inject_Z z -> Qceiling s = z.
-Proof.
-  intros H1 H2. pose proof (Qle_ceiling s) as H3. pose proof (Qceiling_lt s) as H4.
-  unfold Zminus in H4. rewrite inject_Z_plus, inject_Z_opp in H4. change (inject_Z 1) with 1 in H4.
-  apply Z.le_antisymm; apply Zle_from_Qlt; lra.
-Qed.
-
-Lemma Qfloor_unique s z : inject_Z z <= s -> s < inject_Z z + 1 -> Qfloor s = z.
-Proof.
-  intros H1 H2. pose proof (Qfloor_le s) as H3. pose proof (Qlt_floor s) as H4.
-  rewrite inject_Z_plus in H4. change (inject_Z 1) with 1 in H4.
-  apply Z.le_antisymm; apply Zle_from_Qlt; lra.
 Qed.
 
 Lemma count_lt_ceiling n : forall s, s <= iQ n -> count_lt n s = Z.to_nat (Qceiling s).
